@@ -101,4 +101,46 @@ theorem limRun_eq_depthLimit (N : Nat) (hN : 0 < N) (L : List Frame) (n : Nat) :
     have h0 : ¬ (fe = 0) := by omega
     simp only [Nat.sub_zero, h0, if_false]
 
+/-! ## `ConvertedStackIterD`: the look-ahead iterator computes `extra ++ emitJs` -/
+
+theorem csCollect_none (fuel : Nat) (st : Option JsName) (infos : List Info) (hf : 2 * infos.length < fuel) :
+    csCollect fuel { pending := none, jsName := st } infos = emitJs st infos := by
+  induction infos generalizing fuel st with
+  | nil =>
+    cases fuel with
+    | zero => omega
+    | succ k => simp [csCollect, csNext, emitJs]
+  | cons i rest ih =>
+    cases fuel with
+    | zero => omega
+    | succ k =>
+      simp only [List.length_cons] at hf
+      unfold csCollect emitJs
+      simp only [csNext]
+      cases hx : (jsStep st i.js).1 with
+      | none =>
+        simp only [framesOf, List.singleton_append, List.cons.injEq, true_and]
+        exact ih k _ (by omega)
+      | some n =>
+        cases n with
+        | selfHosted x =>
+          simp only [framesOf, List.singleton_append, List.cons.injEq, true_and]
+          exact ih k _ (by omega)
+        | nonSelfHosted x =>
+          cases k with
+          | zero => omega
+          | succ k2 =>
+            simp only [framesOf, csCollect, csNext, List.cons_append, List.nil_append, List.cons.injEq, true_and]
+            exact ih k2 _ (by omega)
+
+theorem csRun_eq (extra : Option Frame) (infos : List Info) :
+    csRun extra infos = extra.toList ++ emitJs none infos := by
+  unfold csRun
+  cases extra with
+  | none => simpa using csCollect_none _ none infos (by omega)
+  | some f =>
+    show csCollect (2 * infos.length + 1 + 1) _ _ = _
+    simp only [csCollect, csNext, Option.toList_some, List.singleton_append, List.cons.injEq, true_and]
+    exact csCollect_none (2 * infos.length + 1) none infos (by omega)
+
 end Conv
